@@ -86,8 +86,8 @@ func main() {
 			if strings.Contains(n, "/procs1/") || strings.Contains(n, "/procs2/") || strings.Contains(n, "/procs3/") {
 				b = 1
 			}
-			if r.Thorough() {
-				b++
+			if r.Thorough() && !strings.Contains(n, "/procs5/") && !strings.Contains(n, "/procs7/") {
+				b++ // (with 5 and 7 workers one preemption is already 3 million executions, more than an hour each)
 			}
 		}
 		if strings.HasPrefix(n, "dc-interior/") {
